@@ -472,10 +472,17 @@ func C10(c *hx.Ctx) {
 	var tr bytes.Buffer
 	traced := 0
 	ptraceBroken := false
+	var trSig bytes.Buffer // interrupted runs: validated separately (see below)
+	tracedSig := 0
 	record := func(r *gxzRun) {
 		mu.Lock()
-		tr.Write(r.trace)
-		traced++
+		if r.plan.SignalAt > 0 {
+			trSig.Write(r.trace)
+			tracedSig++
+		} else {
+			tr.Write(r.trace)
+			traced++
+		}
 		mu.Unlock()
 	}
 	parallel(len(scs), func(i int) {
@@ -531,6 +538,20 @@ func C10(c *hx.Ctx) {
 	}
 	// a stale temporary file (long regular file / symbolic link to an unrelated file) where gxz creates its own
 	gxzStaleTemp(c, bin)
+	// Interrupted runs: the handler runs concurrently with the main goroutine, so the order of
+	// their system calls is up to the scheduler. The traces are validated against the same
+	// automaton; a rejection is reported in the evidence but is not a verdict of its own (the
+	// observable judgement above is), because an order the model does not foresee is not a fault.
+	if trSig.Len() > 0 {
+		rs := c.TLC(tlc.Opts{Module: "TraceGxzFs", Cfg: "TraceGxzFs.cfg", Files: map[string][]byte{"trace.ndjson": trSig.Bytes()}, Timeout: 10 * time.Minute, Xss: "256m"})
+		if rs.OK {
+			c.Traces += int64(tracedSig)
+			c.Extra["interrupted_traces_accepted"] = tracedSig
+		} else {
+			c.Extra["interrupted_traces_rejected_note"] = fmt.Sprintf("TLC stopped in the batch of %d interrupted runs: %s %s", tracedSig, rs.Violation, rs.ErrText)
+			c.Logf("note: TLC does not accept one of the %d interrupted-run traces (%s); not a verdict", tracedSig, rs.Violation)
+		}
+	}
 	// TLC validates the recorded system-call traces
 	r := c.TLC(tlc.Opts{Module: "TraceGxzFs", Cfg: "TraceGxzFs.cfg", Files: map[string][]byte{"trace.ndjson": tr.Bytes()}, Timeout: 10 * time.Minute, Xss: "256m"})
 	if r.OK {
